@@ -399,6 +399,12 @@ func (t *Thread) sendResumeValues(args []Value, err error, exception interface{}
 //
 // See quotas.md for details about this API.
 func (t *Thread) CallContext(def RuntimeContextDef, f func() error) (ctx RuntimeContext, err error) {
+	if def.RequiredFlags != 0 || def.HardLimits != (RuntimeResources{}) {
+		// Debug hooks installed by code running under restrictions do not
+		// outlive them (they would run unrestricted in the thread afterwards).
+		hooks := t.DebugHooks
+		defer func() { t.DebugHooks = hooks }()
+	}
 	t.PushContext(def)
 	c, h := t.CurrentCont(), t.closeStack.size()
 	defer func() {
